@@ -45,7 +45,7 @@ import (
 
 func TestMain(m *testing.M) { evid.Main(m, "C06") }
 
-const ruleText = "cases = rapid-generated GOP-structured NAL/AU sequences (sizes hitting 1-3 bytes, MTU+-1, 184k+-{0,1,2}, 65535/65536, >64 KiB) x any legal packetisation per access unit (single / STAP-A|AP over any run incl. SPS+PPS+IDR and mixed NRI / FU-A|FU with any fragment sizes) x sequence-number start incl. wrap x RTP timestamp start and steps (no 32-bit wrap) x sender reports at any position x drop/swap/duplicate of fragments inside fragmented units; AAC-hbr with 1..6 AUs per packet. Non-trivial = the case has an aggregation packet with >=2 units of different NRI (H.264) / >=2 AUs (AAC), or a fragmented unit with >=3 fragments, or a loss inside a fragmented unit; fingerprint = codec + path + all packet bytes + arrival order."
+const ruleText = "cases = rapid-generated GOP-structured NAL/AU sequences (sizes hitting 1-3 bytes, MTU+-1, 184k+-{0,1,2}, 65535/65536, >64 KiB) x any legal packetisation per access unit (single / STAP-A|AP over any run incl. SPS+PPS+IDR and mixed NRI / FU-A|FU with any fragment sizes) x sequence-number start incl. wrap x RTP timestamp start and steps (no 32-bit wrap) x RTP headers with 0..3 CSRC entries and a header extension of 0..8 words (0xABAC, RFC 8285 one-/two-byte blocks, other profiles) on about a third of the packets of every mode, parsed by ipchub's own ReadPacket x sender reports at any position x drop/swap/duplicate of fragments inside fragmented units; AAC-hbr with 1..6 AUs per packet. Non-trivial = the case has an aggregation packet with >=2 units of different NRI (H.264) / >=2 AUs (AAC), or a fragmented unit with >=3 fragments, or a loss inside a fragmented unit; fingerprint = codec + path + all packet bytes + arrival order."
 
 // ---------------------------------------------------------------- metadata (SDP as a publisher would ANNOUNCE it)
 
@@ -462,6 +462,20 @@ func account(name, path string, s *esgen.Stream, faults []esgen.Fault, arrival [
 	hl := s.Codec.HeaderLen()
 	for i, m := range s.Meta {
 		evid.Class(name + "/pkt-" + m.Kind.String())
+		if p := s.Pkts[i]; p.HasExt && len(p.Ext) > 0 {
+			pos := ""
+			if m.Kind == esgen.Fragment {
+				pos = "-middle"
+				if m.Frag == 0 {
+					pos = "-first"
+				} else if m.Frag == m.Frags-1 {
+					pos = "-last"
+				}
+			}
+			evid.Class(name + "/hdr-ext>=1word-" + m.Kind.String() + pos)
+		} else if len(p.CSRC) > 0 || p.HasExt {
+			evid.Class(name + "/hdr-csrc-or-empty-ext")
+		}
 		switch m.Kind {
 		case esgen.Aggregate:
 			if s.Audio {
@@ -562,7 +576,7 @@ func account(name, path string, s *esgen.Stream, faults []esgen.Fault, arrival [
 // usable by the driver's replay.
 func begin(t *testing.T) {
 	evid.Rule(ruleText)
-	evid.Assume("sender side = lib/rtppack, anchored on hand-written RFC vectors; 32-bit RTP timestamp wrap, F=1 units, filler NAL units, RTP padding/extension/CSRC are outside the generated domain")
+	evid.Assume("sender side = lib/rtppack, anchored on hand-written RFC vectors; 32-bit RTP timestamp wrap, F=1 units, filler NAL units and RTP padding are outside the generated domain")
 	evid.Assume("without sprop parameter sets in the SDP, units sent before the in-band parameter sets are complete are withheld by documented design (metadata gate) and are not demanded")
 	evid.Assume("presentation times are compared only between frames with no sender report delivered between their packets (one sync-clock epoch); the jump of all PTS at the first sender report is outside the comparison")
 	evid.Checks(20000, 250000)
@@ -584,7 +598,7 @@ func TestAacSync(t *testing.T)      { begin(t); aacSync(t) }
 func videoSync(t *testing.T, c esgen.Codec, maxNAL int) {
 	rapid.Check(t, func(t *rapid.T) {
 		cfg := esgen.Config{Codec: c, Tags: true, EndNALs: true, AuxSlices: true, NegativeSteps: true, MaxNAL: maxNAL}
-		s := esgen.Packetise(t, c, cfg.DrawSequence(t), esgen.PackConfig{})
+		s := esgen.Packetise(t, c, cfg.DrawSequence(t), esgen.PackConfig{HeaderExtras: true})
 		var faults []esgen.Fault
 		if rapid.IntRange(0, 2).Draw(t, "faulty") > 0 {
 			faults = esgen.DrawFaults(t, s, 3)
@@ -612,7 +626,7 @@ func videoSync(t *testing.T, c esgen.Codec, maxNAL int) {
 func gateSync(t *testing.T, c esgen.Codec) {
 	rapid.Check(t, func(t *rapid.T) {
 		cfg := esgen.Config{Codec: c, Tags: true, RealParamSets: true, MaxNAL: 3000, MaxGOP: 3}
-		s := esgen.Packetise(t, c, cfg.DrawSequence(t), esgen.PackConfig{})
+		s := esgen.Packetise(t, c, cfg.DrawSequence(t), esgen.PackConfig{HeaderExtras: true})
 		arrival := esgen.Arrival(len(s.Pkts), nil)
 		vm, _ := metas(t, c, false, 0)
 		rec := &recorder{}
@@ -652,7 +666,7 @@ func aacSync(t *testing.T) {
 	rapid.Check(t, func(t *rapid.T) {
 		rate := rapid.SampledFrom([]int{44100, 44100, 48000, 8000, 16000, 22050, 32000, 96000}).Draw(t, "rate")
 		ac := esgen.AacConfig{Tags: true, SampleRate: rate}
-		s := esgen.PacketiseAac(t, ac, ac.DrawAacAUs(t), esgen.PackConfig{})
+		s := esgen.PacketiseAac(t, ac, ac.DrawAacAUs(t), esgen.PackConfig{HeaderExtras: true})
 		arrival := esgen.Arrival(len(s.Pkts), nil)
 		_, am := metas(t, esgen.H264, true, rate)
 		rec := &recorder{}
@@ -709,7 +723,7 @@ func demuxer(t *testing.T, c esgen.Codec) {
 	evid.Rule("demuxer path: video (+ optional AAC) packets and sender reports interleaved on channels 0-3 through rtp.NewDemuxer; fragments are dropped (loss only) so the expected frame list is exact; completion is observed by a final sentinel unit, not by sleeping")
 	rapid.Check(t, func(t *rapid.T) {
 		cfg := esgen.Config{Codec: c, Tags: true, EndNALs: true, AuxSlices: true, NegativeSteps: true, MaxNAL: 20000}
-		vs := esgen.Packetise(t, c, cfg.DrawSequence(t), esgen.PackConfig{})
+		vs := esgen.Packetise(t, c, cfg.DrawSequence(t), esgen.PackConfig{HeaderExtras: true})
 		var faults []esgen.Fault
 		if rapid.IntRange(0, 1).Draw(t, "lossy") > 0 {
 			faults = esgen.DrawFaults(t, vs, 3, "drop")
@@ -720,7 +734,7 @@ func demuxer(t *testing.T, c esgen.Codec) {
 		if rapid.IntRange(0, 2).Draw(t, "audio") > 0 {
 			rate = rapid.SampledFrom([]int{44100, 48000, 8000}).Draw(t, "rate")
 			ac := esgen.AacConfig{Tags: true, SampleRate: rate, MaxAUs: 8}
-			as = esgen.PacketiseAac(t, ac, ac.DrawAacAUs(t), esgen.PackConfig{})
+			as = esgen.PacketiseAac(t, ac, ac.DrawAacAUs(t), esgen.PackConfig{HeaderExtras: true})
 		}
 		// interleave
 		var items []muxItem
